@@ -157,7 +157,7 @@ func Qualifier(name, query string) (Filter, error) {
 	if name == "" {
 		return func(f Feature) bool {
 			for _, vv := range f.Props {
-				for _, v := range vv {
+				for _, v := range vv[1:] {
 					if re.MatchString(v) {
 						return true
 					}
